@@ -410,6 +410,10 @@ def _check_main(ctx, rep: Report):
 def check(ctx, rep):
     from . import metarules, shared
     _check_main(ctx, rep)
+    from . import metarules, r5rules
+    r5rules.collection_kinds(ctx, rep, "C16.KINDS")
+    r5rules.new_wrapper_order(ctx, rep, "C16.NEW")
+    r5rules.refresh_rules(ctx, rep, "C16.REFRESH")
     metarules.attr_spec_fresh(ctx, rep, "C16.SPEC")
     metarules.singular_cache(ctx, rep, "C16.CACHE")
     shared.own_namespace_lookups(ctx, rep, "C16.NS")
